@@ -7,7 +7,7 @@ import numpy as np
 GEOMS = ["box", "tight", "logbox", "mixedlog", "unbounded", "x0_on_bound", "x0_absent", "mixed_unbounded"]
 TARGETS = ["quad", "abs", "plateau", "ties"]
 MODES = ["det", "auto", "decl", "he"]
-CONS = [None, "ball", "halfspace", "slab", "ring"]
+CONS = [None, "ball", "halfspace", "slab", "ring"]   # "sliver": forced rare path (almost every ES candidate infeasible)
 
 
 def make_spec(rng, D=None, geom=None, target=None, mode=None, cons=None, opt_loc=None, options=None, seed=None):
@@ -138,7 +138,7 @@ def build(spec, fault=None):
     cons_fn = None
     ck = spec.get("cons")
     if ck:
-        r = {"ball": 2.5, "halfspace": 0.4, "slab": 0.35, "ring": 3.0}[ck]
+        r = {"ball": 2.5, "halfspace": 0.4, "slab": 0.35, "ring": 3.0, "sliver": 0.04}[ck]
         if x0 is not None:
             x0z = z_of(x0) * 4
         else:
@@ -146,7 +146,7 @@ def build(spec, fault=None):
             # ball/half-space/slab wide enough to contain the whole plausible box (any drawn x0 is feasible)
             mid = [math.sqrt(plb[i] * pub[i]) if logc[i] else 0.5 * (plb[i] + pub[i]) for i in range(D)]
             x0z = z_of(mid) * 4
-            r = {"ball": 2.2 * math.sqrt(D), "halfspace": 2.1 * D, "slab": 2.1, "ring": 3.0}[ck]
+            r = {"ball": 2.2 * math.sqrt(D), "halfspace": 2.1 * D, "slab": 2.1, "ring": 3.0, "sliver": 2.1}[ck]
 
         def cons_fn(X):
             X = np.atleast_2d(np.asarray(X, dtype=float))
@@ -157,7 +157,7 @@ def build(spec, fault=None):
                     out[j] = float(np.sum((z - x0z) ** 2)) - r ** 2
                 elif ck == "halfspace":
                     out[j] = float(np.sum(z - x0z)) - r
-                elif ck == "slab":    # thin slab around the start point along the first coordinate
+                elif ck in ("slab", "sliver"):    # thin slab around the start point along the first coordinate
                     out[j] = abs(float(z[0] - x0z[0])) - r
                 else:                  # non-convex ring: infeasible inside a small hole away from the start
                     out[j] = 0.3 ** 2 - float(np.sum((z - x0z - 0.8) ** 2))
@@ -211,8 +211,8 @@ def _faulty(kind, mode, x):
 def small_options(rng, D, mode, quick=True):
     """Option corners that keep runs short but reach every controller branch."""
     o = {"n_search": rng.choice([32, 64, 128])}
-    init = D if mode == "det" or mode == "auto" else 20
-    base = max(init, D) + rng.choice([8, 15, 25, 40]) + (12 if mode in ("decl", "he") else 0)
+    init = D if mode == "det" else 34   # noisy modes evaluate 1 + 32 Sobol points (+1 noise test) before the loop
+    base = max(init, D) + rng.choice([8, 15, 25, 40])
     o["max_fun_evals"] = base
     r = rng.random()
     if r < 0.12:
